@@ -222,7 +222,8 @@ class Exporter:
                             non_place_holder_in_row = True
                     if content:
                         row.append(content)
-                    new_next_nodes.append(node.parent)
+                    if len(new_next_nodes) == 0 or new_next_nodes[-1] is not node.parent:
+                        new_next_nodes.append(node.parent)  # the sub-spines of an open split share their parent
                 next_nodes = new_next_nodes
                 if non_place_holder_in_row:  # if the row contains just place holders due to an ommitted place holder, don't add it
                     rows.insert(0, row)
